@@ -126,7 +126,7 @@ func (p *E4) BidPending() bool {
 
 // RecvBlock answers a pending ENQ with EOT, reads one block transmission, verifies
 // length and checksum with the reference parser and answers with reply (ACK, or NAK to
-// provoke a retransmission). It returns the parsed block and the raw bytes.
+// provoke a retransmission; 0 = no answer yet). It returns the parsed block and the raw bytes.
 func (p *E4) RecvBlock(reply byte) (e4.Block, []byte, error) {
 	if err := p.Expect(e4.ENQ); err != nil {
 		return e4.Block{}, nil, err
@@ -149,6 +149,8 @@ func (p *E4) RecvBlock(reply byte) (e4.Block, []byte, error) {
 		p.Write(e4.NAK)
 		return e4.Block{}, raw, err
 	}
-	p.Write(reply)
+	if reply != 0 { // 0: the caller answers later (a receiver that is slow to acknowledge)
+		p.Write(reply)
+	}
 	return blk, raw, nil
 }
